@@ -238,13 +238,22 @@ def print_assumptions(prop_file, lock=True):
     printed = re.findall(r'Print Assumptions\s+(\w+)', src)
     closed = out.count('Closed under the global context')
     axioms = []
-    # "Axioms:" blocks list "name : type" entries starting at column 0
-    for block in re.findall(r'Axioms:\n((?:.+\n?)+?)(?=\n\S|\Z|Closed|Axioms:)', out + '\n'):
-        for m in re.finditer(r'^(\S[\w.\']*)\s*:', block, re.M):
-            axioms.append(m.group(1))
-    for m in re.finditer(r'^(\S[\w.\']*)\s*:', out, re.M):
-        if m.group(1) not in axioms and 'Axioms:' in out:
-            pass
+    # "Axioms:" blocks list entries "name : type" starting at column 0; the type
+    # may continue on indented lines.  Parsed line by line (no backtracking).
+    in_block = False
+    for line in out.split('\n'):
+        if line.startswith('Axioms:'):
+            in_block = True
+            continue
+        if line.startswith('Closed under the global context') or line.startswith('File '):
+            in_block = False
+            continue
+        if in_block and line and not line[0].isspace():
+            m = re.match(r"([\w.']+)\s*(:|$)", line)
+            if m:
+                axioms.append(m.group(1))
+            else:
+                in_block = False
     missing = [t for t in theorems if t not in printed]
     return {'theorems': theorems, 'examples': examples, 'printed': printed,
             'closed': closed, 'axioms': sorted(set(axioms)), 'missing_print': missing,
